@@ -5,21 +5,66 @@ import os
 
 ROOT = os.path.dirname(os.path.dirname(os.path.abspath(__file__)))
 
+def _c(text, note, technique, category="exploration"):
+    return dict(category=category, text=text, design_ref="DESIGN.md §3", note=note, technique=technique)
+
+
 CHECKS = {
-    "C17": dict(
-        category="exploration",
-        text="Exhaustive enumeration of every accepted (source, intermediate) element-type pair over all values of every <=16-bit source type (quick) and every <=32-bit source type (thorough), boundary-biased Hypothesis sampling for 64-bit/complex sources, an exhaustive [-20,20]^3 Range box and Hypothesis Range triples near every integer-type boundary through generated chains of value-preserving ops. The decision is observed by running the real rewrite on Cast->Cast graphs, the oracle is numpy/ml_dtypes cast semantics with ORT as a confirming second oracle.",
-        design_ref="DESIGN.md §3 C17",
-        note="Trusts numpy/ml_dtypes astype as the model of ONNX Cast for in-range values; 64-bit and complex sources are sampled, not enumerated; NaN payloads are not distinguished.",
-        technique="exhaustive enumeration + Hypothesis property test against a numpy reference model (differential vs ORT)",
-    ),
-    "C02": dict(
-        category="exploration",
-        text="Differential testing of the real optimizer pipeline, one pass at a time, on Hypothesis-generated ONNX graphs built from pattern-seeded neighbourhoods of every rewrite rule plus free steps (symbolic dims, generated output sets, Loop/If captures, tensor side operands), and on raw lowered models of generated JAX programs with intermediates promoted to outputs. Oracle: ORT(raw) == ORT(after pass k) in count, order, dtype, runtime shape and values, model stays checker-valid/loadable, declared output annotations stay consistent. Failures are bucketed by (pass, kind, flags), shrunk structurally and replayed from a committed corpus of former failures.",
-        design_ref="DESIGN.md §3 C02",
-        note="ORT CPU is trusted as the executable semantics of both sides; graphs are bounded (<= ~25 nodes, dims <= 5, ranks <= 4); Dropout with dynamic training mode is excluded (random).",
-        technique="Hypothesis grammar-based graph generation + per-pass differential execution in ONNX Runtime, structural shrinking, regression corpus",
-    ),
+    "C01": _c("Generated-input differential testing of the exported model against eager JAX in three layers: a sweep over every registered testcase with adversarial input pools (quick: seeded sample, thorough: all 1770 in both precisions), Hypothesis-generated well-typed compositions over ~130 guarded ops with blame localisation and input-class attribution, and dense elementwise lattices (half-integers, signed zeros, huge/tiny, all int8 pairs).",
+              "Eager JAX (f32, with an f64 evaluation bounding JAX's own error) is the reference; ORT CPU executes the model; inputs given as fixed input_values are only rescaled; binning/structured-domain components are only reached through their authored inputs.",
+              "Hypothesis program generation + catalog enumeration, differential oracle vs eager JAX with a JAX-f64 error band"),
+    "C02": _c("Differential testing of the real optimizer pipeline, one pass at a time, on Hypothesis-generated ONNX graphs built from pattern-seeded neighbourhoods of every rewrite rule plus free steps (symbolic dims, generated output sets, Loop/If captures at depth 1-2, shared constants, tensor side operands). Oracle: ORT(raw) == ORT(after pass k) in count, order, dtype, runtime shape and values; model stays checker-valid/loadable; declared output annotations stay consistent. Failures are bucketed by (pass, kind, flags), shrunk structurally and replayed from a committed corpus of former failures.",
+              "ORT CPU is trusted as the executable semantics of both sides; graphs are bounded (<= ~25 nodes, dims <= 5, ranks <= 4); Dropout with dynamic training mode is excluded (random).",
+              "Hypothesis grammar-based graph generation + per-pass differential execution in ONNX Runtime, structural shrinking, regression corpus"),
+    "C03": _c("Validity predicates (onnx checker full_check, strict shape inference, ORT session creation, and an independent scope/SSA/function-signature walker) over exports of registered testcases (both precisions, drawn opsets) and Hypothesis-generated control-flow programs, @onnx_function histories, compositions and mixtures under jointly drawn configurations (opset, double precision, symbolic dims, custom names, return mode).",
+              "Validity is what onnx 1.22's checker/strict inference and ORT 1.30 accept plus the walker's scope rules; missing ORT kernels are environment limits.",
+              "Hypothesis program x configuration generation with validity-predicate oracles and an independent scope walker"),
+    "C04": _c("One export with named dims, then a binding lattice ({1,2,3,5,7,16}, all pairs) compared with eager JAX on concrete shapes: generated dimension-expression trees and polynomial skeletons over two symbols (returned as values and used as reshape/arange/broadcast targets, also on NCHW-exposed images), generated compositions with symbolic leading dims, and every registered testcase declaring string dims.",
+              "Eager JAX on concrete arrays defines the meaning of a symbolic program at a binding; loud rejections are counted.",
+              "Hypothesis expression-grammar generation + binding-lattice enumeration, differential oracle vs eager JAX"),
+    "C05": _c("Structural comparison of the exported interface with jax.eval_shape for Hypothesis-generated signatures (unused inputs, passthrough/duplicated/constant outputs, nested pytrees, 9 dtypes, symbols, two-sided broadcasts) under generated naming / precision / layout / input_params configurations, including self-colliding naming requests.",
+              "jax.eval_shape is the reference structure; default names and float16 widths are not asserted.",
+              "Hypothesis signature x configuration generation, structural oracle from jax.eval_shape"),
+    "C06": _c("Generated control-flow programs (cond, switch, while incl. permuted multi-carry and data-dependent exit, fori incl. negative/empty bounds, scan with scanned inputs / two carries / stacked outputs / static, symbolic and zero length, reverse and unsupported variants; nesting <= 3) exported once and executed for every steering input (predicate, bound n, sequence length T) against eager JAX; unsupported variants must raise or be correct; failures are minimised to the construct that matters.",
+              "Eager JAX is the reference for branch choice and trip count; non-finite steering inputs are skipped.",
+              "Hypothesis control-flow grammar + steering-input enumeration, differential oracle vs eager JAX, body minimisation"),
+    "C07": _c("Hypothesis-generated histories of call sites over a module-level library of plain / @onnx_function / unique twins (nnx, equinox with static fields, plain classes, functions with kwargs, nested functions; generated weights, static config, kwargs incl. hash-colliding values, input shapes, symbolic batch). Oracles: decorated == plain twin == eager JAX; two call nodes share a definition only if their call sites are in the same semantic class; arity and reference rules from the independent walker.",
+              "The plain twin defines what the decorated program must compute; decorated targets live at module level.",
+              "Hypothesis history generation with a reference-model (semantic-class partition) oracle and twin differential"),
+    "C08": _c("Every annotated value of exported models (registered testcases incl. symbolic, generated control flow, compositions) is made observable by rewriting the model (extra graph outputs, Loop scan outputs, inlined functions) and compared with the runtime dtype/rank/dims under several symbol bindings and trip counts; plus a before/after comparison around postprocess_ir_model (graph I/O untouched, intermediates only weakened).",
+              "If-branch and function-internal annotations that cannot be exposed without changing semantics are counted, not checked.",
+              "generated programs + model rewriting to observe annotations, invariant oracle (declared vs runtime)"),
+    "C09": _c("Single precision: recursive scan of the returned ModelProto for any DOUBLE element type; double precision: when the x64 jaxpr has only float64 avals, ORT must agree with eager JAX x64 within 1e-9*scale on elements that a one-ulp input perturbation shows to be well conditioned (a float32 detour costs ~6e-8); the x64 flag must be unchanged after returning and raising calls. Programs: registered testcases, generated compositions, control flow, function histories.",
+              "Eager JAX under x64 is the double reference; the perturbation probe selects comparable elements; programs with explicit float32 avals are outside clause (b).",
+              "Hypothesis/catalog program generation, model scan + metamorphic conditioning probe + differential vs JAX x64"),
+    "C10": _c("f from registered testcases and generated float compositions; T from {jit, jit(jit), inner jit, checkpoint, vmap with in_axes/out_axes variants, grad, jvp, vjp, custom_jvp / custom_vjp wrappers}; ORT(to_onnx(T(f))) vs eager T(f) under the C01 policy; identity-like transforms must not break export.",
+              "Eager JAX of the transformed function is the reference; missing batching/differentiation rules that raise are loud rejections (counted).",
+              "catalog x transformation enumeration + Hypothesis programs, differential oracle vs eager JAX"),
+    "C11": _c("For opsets 21..27 (13..20 explored, unclaimed): every node (recursively, functions with their own imports) must exist in onnx.defs at the declared version with fitting arity and attribute names; declared version == requested; checker passes; ORT loads and equals the default-opset export (<= 26). Programs: registered testcases and generated control-flow / function / composition programs.",
+              "onnx.defs of onnx 1.22 is the reference for operator signatures; ORT 1.30 cannot load opset 27.",
+              "catalog x opset enumeration + Hypothesis programs, schema-conformance oracle and cross-opset differential"),
+    "C12": _c("Metamorphic relation on generated image programs (conv, pooling, residual adds, internal transposes, shape-reading steps, symbolic batch and H/W; outputs incl. passthrough and duplicates) x every subset of eligible input/output indices: ORT(flagged)(P.x) == P.ORT(plain)(x) on selected outputs, identical on others, both equal eager JAX; declared shapes permuted; invalid requests raise.",
+              "The plain export and eager JAX are the references; float tolerance 2e-4 relative.",
+              "Hypothesis program generation + subset enumeration, metamorphic relation (layout permutation) with reference oracle"),
+    "C13": _c("Hypothesis rule-based state machine in one process: successful conversions (programs, functions, jitted callables, both precisions, all return modes), failing conversions at each stage (tracing, unknown primitive at top/scan/function body, unwritable path) and fault injection into the plugin patch stack; invariant after every rule: identity snapshot of all jax/flax/equinox/dm_pix/einops module and class attributes, empty patch state, x64 flag, user-module pytree bytes, and bit-identical behavioural probes incl. every callable converted so far.",
+              "Attribute identity + finite probe set observe host state; the baseline is taken after a warm-up conversion.",
+              "Hypothesis stateful (rule-based) testing with fault injection and a snapshot invariant"),
+    "C14": _c("One generated request list (registered testcases, compositions, function histories, control flow, NCHW programs) executed in fresh subprocesses with different PYTHONHASHSEED, plugin import permutations, request orders, interleaved failing conversions and eager jit calls, every request at two history positions; deterministic-serialization digests must be equal everywhere.",
+              "Program generation happens once in the parent and is shipped as JSON; byte equality under SerializeToString(deterministic=True).",
+              "generated schedules/histories across subprocesses, digest-equality invariant"),
+    "C15": _c("Hypothesis rule-based state machine over a temp directory: exports in proto / ir / file mode (standard and web) for parameter size classes around the 1 MiB spill threshold (incl. exactly at it, several large, int8) to paths reused across steps; invariant per step: proto == ir bytewise, reloaded file equal in graph and in SHA-256 of every decoded initializer, ORT outputs identical, web mode single file, sidecar present iff referenced.",
+              "onnx.load + numpy_helper.to_array(base_dir) define 'reloaded from disk with sidecar'.",
+              "Hypothesis stateful (rule-based) testing with a round-trip invariant"),
+    "C16": _c("Fault enumeration over every optimizer pass index (0..17) x {raise before, raise after} x {top graph, function bodies} on six programs (thorough: also generated programs): the default policy must return a valid model equal to eager JAX and the strict setting must re-raise; plus every unsupported construct (unknown primitive, plugin removed from the registry, 3-way switch, reverse scan, traced fori bounds) at 7 placements (top, cond/while/scan/fori bodies, nested, @onnx_function body): raise or be correct.",
+              "The pass table is the unit of abort; any exception type counts as loud.", "exhaustive fault-point enumeration + generated programs, validity and differential oracles", category="fault_enumeration"),
+    "C17": _c("Exhaustive enumeration of every accepted (source, intermediate) element-type pair over all values of every <=16-bit source type (quick) and every <=32-bit source type (thorough), boundary-biased Hypothesis sampling for 64-bit/complex sources, an exhaustive [-20,20]^3 Range box and Hypothesis Range triples near every integer-type boundary through generated chains of value-preserving and value-changing ops. The decision is observed by running the real rewrite on Cast->Cast graphs; oracle: numpy/ml_dtypes cast semantics with ORT as confirming second oracle.",
+              "Trusts numpy/ml_dtypes astype as the model of ONNX Cast for in-range values; 64-bit and complex sources are sampled; NaN payloads are not distinguished.",
+              "exhaustive enumeration + Hypothesis property test against a numpy reference model (differential vs ORT)"),
+    "C18": _c("(fn, model) pairs: a generated program is exported and the stored model mutated by one generated deviation (value shifts far outside tolerance, NaN/Inf, shape, count, order, dtype-class changes, benign controls); allclose may return True only if an independent comparison (direct ORT run, float64 / Python-int arithmetic) does not say 'definitely outside tolerance'; the x64 flag must survive returns, raising fn, missing/corrupt model files and bad feeds under both global flag settings.",
+              "Factor-2 margin around the tolerance so boundary cases never count.", "mutation of stored models + Hypothesis programs, independent-reference oracle"),
+    "C19": _c("Every tracing-time substitute (all MonkeyPatchSpecs of all leaf plugins, 308) x call forms generated from the original function's signature (each optional parameter by keyword / positionally): whenever the original binds a form, the substitute must bind it (exhaustive); plus recorded real calls of 222 substitutes re-expressed as all-keyword / explicit-defaults / all-positional single-call programs, exported and compared with the eager original.",
+              "inspect.signature of the original describes the calls it accepts; re-expressions of one bound argument set must behave identically.",
+              "exhaustive signature-form enumeration + recorded-call re-expression, differential oracle vs the original function"),
 }
 
 NOT_APPLICABLE = []
